@@ -8,6 +8,7 @@ import os
 import numpy as np
 
 import qcommon as qc
+import sv_pipeline
 
 ANGLE_TOL = math.pi * 1e-4   # per rotation: what get_angle_spec_from_float's default tolerance admits (see C19)
 
@@ -42,7 +43,6 @@ Eval vm_compute in (map (fun r => match pm_kraus r false, pm_kraus r true with
 # ------------------------------------------------------------------ pipeline runs
 class Runner:
     def __init__(self, ctx):
-        import sv_pipeline
         self.ns = sv_pipeline.make()
         from netqasm.sdk.qubit import Qubit
         from netqasm.sdk.toolbox.gates import t_inverse, toffoli_gate
@@ -167,7 +167,7 @@ def case_parity(ctx, R, model, idx, row, psi, forced):
         pass
     elif row["const"] is None:
         if not model["kraus"][idx]:
-            return False, ok_doc
+            return False, ok_doc, r
         D = model["kraus"][idx][forced]
         mret = model["ret"][idx][forced]
         w = D @ psi
@@ -175,7 +175,7 @@ def case_parity(ctx, R, model, idx, row, psi, forced):
                     and float(np.linalg.norm(res["post"] - w / max(np.linalg.norm(w), 1e-300))) < 1e-7)
     else:
         ok_model = (r == row["const"])
-    return ok_model, ok_doc
+    return ok_model, ok_doc, r
 
 
 def case_state_prep(ctx, R, phi, theta):
@@ -259,31 +259,27 @@ def run(ctx):
         ks = list(range(2 ** nd)) if thorough else sorted(set([0, 2 ** nd - 1, rng.randrange(2 ** nd)]))
         states = [("basis", k, basis_state(nd, k)) for k in ks]
         states += [("random", i, rand_state(rng, nd)) for i in range(6 if thorough else 2)]
-        P = pauli_string(row["bases"])
         for tag, k, psi in states:
+            rets = {}
             for forced in (0, 1):
-                if row["const"] is None:
-                    # probability of physical outcome `forced` according to the documented operator
-                    flips = sum(1 for e in row["ops"] if e[0] == "flip") % 2
-                    rr = forced ^ flips
-                    pw = float(np.linalg.norm(((np.eye(len(P)) + (-1) ** (rr ^ int(row["neg"])) * P) / 2) @ psi) ** 2)
-                    if pw < 1e-9:
-                        # the forced outcome should be impossible: the executor must agree
-                        try:
-                            got = R.parity(row["bases"], row["neg"], psi, forced)
-                            if got["prob"] is not None and got["prob"] > 1e-9:
-                                ctx.violation(f"parity_meas({row['bases']}): outcome with documented probability 0 occurs with {got['prob']}",
-                                              dict(kind="parity", bases=row["bases"], neg=row["neg"], psi=lst(psi), forced=forced),
-                                              key=f"C20:parity_meas:{'-' if row['neg'] else '+'}{row['bases']}")
-                        except RuntimeError:
-                            pass
-                        stats["parity_skipped_zero_prob"] += 1
-                        continue
-                elif forced == 1:
+                if row["const"] is not None and forced == 1:
                     continue
-                okm, okd = case_parity(ctx, R, model, idx, row, psi, forced)
+                try:
+                    okm, okd, r = case_parity(ctx, R, model, idx, row, psi, forced)
+                except sv_pipeline.ImpossibleOutcome:
+                    # this physical outcome has probability 0 on this input; the other one is then
+                    # certain and its probability is compared with the documented projector below/above
+                    stats["parity_skipped_zero_prob"] += 1
+                    continue
+                rets[forced] = r
                 note("parity", ("parity", row["bases"], row["neg"], tag, k, forced), okm,
                      nontrivial=row["const"] is None)
+            if len(rets) == 2 and rets[0] == rets[1]:
+                ctx.violation(f"parity_meas({'-' if row['neg'] else ''}{row['bases']}): both measurement outcomes return {rets[0]}",
+                              dict(kind="parity", bases=row["bases"], neg=row["neg"], psi=lst(psi), forced=0),
+                              key=f"C20:parity_meas:{'-' if row['neg'] else '+'}{row['bases']}")
+            if row["const"] is None and not rets:
+                ctx.broken.append(f"parity_meas {row['bases']}: no measurement outcome possible")
     # --- state preparation
     grid = [0.0, math.pi / 2, math.pi, 3 * math.pi / 2, math.pi / 4, 1e-3, 2 * math.pi - 1e-3]
     cases = [(p, t) for p in grid for t in grid] if thorough else [(p, t) for p in grid[:4] for t in grid[:4]]
@@ -329,7 +325,10 @@ def replay(ctx, path):
     elif rec["kind"] == "parity":
         nd = len(rec["bases"])
         row = dict(bases=rec["bases"], neg=rec["neg"], nd=nd, const=None if any(c != "I" for c in rec["bases"]) else int(rec["neg"]))
-        _, okd = case_parity(ctx, R, None, 0, row, vec(rec["psi"]), rec["forced"])
+        try:
+            _, okd, _ = case_parity(ctx, R, None, 0, row, vec(rec["psi"]), rec["forced"])
+        except sv_pipeline.ImpossibleOutcome:
+            okd = True
     elif rec["kind"] == "state_prep":
         _, okd = case_state_prep(ctx, R, rec["phi"], rec["theta"])
     else:
